@@ -194,6 +194,71 @@ Proof.
   - rewrite (composed_cmp_repr _ _ _ _ Dch Db Vps Vb), (composed_cmp_repr _ _ _ _ Dfl Db Vps Vb). reflexivity.
 Qed.
 
+(* ---- UncertainName *)
+Theorem uncertain_abs_eq a b : valid_abs a -> valid_abs b ->
+  m_uncertain_eq (UAbs (wire_abs a)) (UAbs (wire_abs b)) = Ok (name_eqb a b) /\
+  m_uncertain_eq (UAbs (wire_abs a)) (URel (wire_rel b)) = Ok false /\
+  m_uncertain_eq (URel (wire_rel a)) (URel (wire_rel b)) = Ok (name_eqb a b).
+Proof.
+  intros Va Vb. cbn [m_uncertain_eq]. change uncertain_eq_same_variant_only with true. cbv iota.
+  split; [|split; [reflexivity|]].
+  - apply name_eq_repr; try assumption; apply denotes_flat_abs; [apply Va|apply Vb].
+  - apply relname_eq_repr; try assumption; apply denotes_flat_rel; [apply Va|apply Vb].
+Qed.
+
+Theorem uncertain_eq_hash a b : valid_abs a -> valid_abs b ->
+  (m_uncertain_eq (UAbs (wire_abs a)) (UAbs (wire_abs b)) = Ok true ->
+   m_uncertain_hash (UAbs (wire_abs a)) = m_uncertain_hash (UAbs (wire_abs b))) /\
+  (m_uncertain_eq (URel (wire_rel a)) (URel (wire_rel b)) = Ok true ->
+   m_uncertain_hash (URel (wire_rel a)) = m_uncertain_hash (URel (wire_rel b))).
+Proof.
+  intros Va Vb. destruct (uncertain_abs_eq a b Va Vb) as [E1 [_ E3]]. split; intros H.
+  - rewrite E1 in H. injection H as H. cbn [m_uncertain_hash].
+    rewrite (name_hash_repr _ a (denotes_flat_abs a (proj1 Va)) Va), (name_hash_repr _ b (denotes_flat_abs b (proj1 Vb)) Vb).
+    f_equal. apply name_eq_hash. exact H.
+  - rewrite E3 in H. injection H as H. cbn [m_uncertain_hash]. unfold m_name_hash.
+    rewrite (iters_hash_yields _ _ (d_fwd _ _ (denotes_flat_rel a (proj1 Va)))) by (apply valid_rel_length; exact Va).
+    rewrite (iters_hash_yields _ _ (d_fwd _ _ (denotes_flat_rel b (proj1 Vb)))) by (apply valid_rel_length; exact Vb).
+    f_equal. rewrite (flat_map_hash_feed a) by (apply valid_lt256; apply Va).
+    rewrite (flat_map_hash_feed b) by (apply valid_lt256; apply Vb).
+    apply name_eqb_spec in H. unfold canon in H. clear - H. revert b H.
+    induction a as [|x a IH]; intros [|y b] H; cbn [map concat] in *; try discriminate; [reflexivity|].
+    injection H as H1 H2. rewrite (label_eq_hash x y) by (apply label_eqb_spec; exact H1). f_equal. apply IH. exact H2.
+Qed.
+
+(* ---- core::iter::Chain fuses its first half; the unfused IChain of the
+   model yields the same labels because the halves keep answering None *)
+Inductive fused_yields : option iter -> iter -> list label -> Prop :=
+| FY_nil oa b : fused_next oa b = Ok None -> fused_yields oa b []
+| FY_cons oa b l oa' b' ls : fused_next oa b = Ok (Some (l, (oa', b'))) -> fused_yields oa' b' ls ->
+    fused_yields oa b (l :: ls).
+
+Lemma fused_yields_second b lb : yields b lb -> fused_yields None b lb.
+Proof.
+  induction 1 as [b Hm | b l b' ls Hm Hb IH].
+  - apply FY_nil. cbn [fused_next]. rewrite Hm. reflexivity.
+  - eapply FY_cons; [|exact IH]. cbn [fused_next]. rewrite Hm. reflexivity.
+Qed.
+
+Theorem chain_fused_same a b la lb : yields a la -> yields b lb ->
+  fused_yields (Some a) b (la ++ lb) /\ yields (IChain a b) (la ++ lb).
+Proof.
+  intros Ha Hb. split; [|apply yields_chain; assumption].
+  induction Ha as [a Hn | a l a' ls Hn Ha IH].
+  - cbn [app]. inversion Hb as [? Hm | ? l b' ls Hm Hb']; subst.
+    + apply FY_nil. cbn [fused_next]. rewrite Hn. cbn [bind]. rewrite Hm. reflexivity.
+    + eapply FY_cons; [|apply fused_yields_second; exact Hb'].
+      cbn [fused_next]. rewrite Hn. cbn [bind]. rewrite Hm. reflexivity.
+  - cbn [app]. eapply FY_cons; [|exact IH]. cbn [fused_next]. rewrite Hn. reflexivity.
+Qed.
+
+Lemma yields_det i a : yields i a -> forall b, yields i b -> a = b.
+Proof.
+  induction 1 as [i Hn | i l i' ls Hn Hi IH]; intros b Hb; inversion Hb as [? Hm | ? l2 i2 ls2 Hm Hb2]; subst;
+    rewrite Hn in Hm; try discriminate; [reflexivity|].
+  inversion Hm; subst. f_equal. apply IH. exact Hb2.
+Qed.
+
 Example repr_example :
   let ch := NChain (NFlat (wire_rel [[87;87;87]])) (NFlat (wire_abs [[97]; [66]])) in
   let fl := NFlat (wire_abs [[119;119;119]; [65]; [98]]) in
